@@ -120,6 +120,72 @@ Proof.
 Qed.
 End Img.
 
+(* ---------- in place: src == dst ----------
+   Each pixel is read from the buffer as it is when the pixel is processed, transformed by a function of
+   its own bytes, and written back to the same place.  Because footprints are disjoint, a pixel not yet
+   processed still holds its original bytes, so the result is the out-of-place result computed from the
+   original buffer - for every processing order. *)
+Section InPlace.
+Variable B : Type.
+Variable dflt : B.
+Variables X0 Y0 X1 Y1 stride bpp : Z.
+Hypothesis Hbpp : 0 < bpp.
+Hypothesis Hstride : bpp * (X1 - X0) <= stride.
+Notation pix := (Z * Z)%type (only parsing).
+Notation OFF := (off X0 Y0 stride bpp).
+Notation INFP := (infp X0 Y0 stride bpp).
+Notation INR := (inrect X0 Y0 X1 Y1).
+Notation WR := (wr B dflt bpp).
+
+Variable h : pix -> list B -> list B.       (* the pixel's new bytes from its current bytes *)
+Definition rd (b : buf B) (p : pix) : list B := map (fun k => b (OFF p + Z.of_nat k)) (seq 0 (Z.to_nat bpp)).
+Definition stepi (b : buf B) (p : pix) : buf B := WR b (OFF p) (h p (rd b p)).
+Definition runi (l : list pix) (b : buf B) : buf B := fold_left stepi l b.
+
+Lemma wr_outside b p v i : INFP p i = false -> WR b (OFF p) v i = b i.
+Proof. unfold wr, infp. intros H. rewrite H. reflexivity. Qed.
+
+Lemma rd_after_other_write b p q v : INR p -> INR q -> p <> q -> rd (WR b (OFF p) v) q = rd b q.
+Proof.
+  intros Hp Hq Hne. unfold rd. apply map_ext_in. intros k Hk. apply in_seq in Hk.
+  apply wr_outside. destruct (INFP p (OFF q + Z.of_nat k)) eqn:E; [|reflexivity]. exfalso. apply Hne.
+  apply (footprints_disjoint X0 Y0 X1 Y1 stride bpp Hbpp Hstride p q (OFF q + Z.of_nat k) Hp Hq E).
+  unfold infp. apply andb_true_intro. split; [apply Z.leb_le; lia|apply Z.ltb_lt; lia].
+Qed.
+
+Theorem runi_is_runo (b0 : buf B) : forall l b, Forall INR l -> NoDup l ->
+  (forall q, In q l -> rd b q = rd b0 q) ->
+  forall i, runi l b i = runo B dflt X0 Y0 stride bpp (fun p => h p (rd b0 p)) l b i.
+Proof.
+  induction l as [|p l IH]; intros b Hall Hnd Hsame i; [reflexivity|].
+  inversion Hall as [|? ? Hp Hl]; subst. inversion Hnd as [|? ? Hnin Hnd']; subst.
+  unfold runi, runo in *. cbn [fold_left].
+  assert (E : stepi b p = stepo B dflt X0 Y0 stride bpp (fun p => h p (rd b0 p)) b p).
+  { unfold stepi, stepo. rewrite (Hsame p (or_introl eq_refl)). reflexivity. }
+  rewrite E. apply IH; [exact Hl|exact Hnd'|].
+  intros q Hq. unfold stepo. rewrite rd_after_other_write.
+  - apply Hsame. right. exact Hq.
+  - exact Hp.
+  - rewrite Forall_forall in Hl. apply Hl. exact Hq.
+  - intros ->. contradiction.
+Qed.
+
+(* in place = out of place on a copy of the original, for any duplicate-free pixel list in any order *)
+Corollary inplace_equals_out_of_place l b : Forall INR l -> NoDup l ->
+  forall i, runi l b i = runo B dflt X0 Y0 stride bpp (fun p => h p (rd b p)) l b i.
+Proof. intros Hall Hnd. apply runi_is_runo; auto. Qed.
+
+Corollary inplace_order_irrelevant l1 l2 b : Forall INR l1 -> NoDup l1 -> Permutation l1 l2 ->
+  forall i, runi l1 b i = runi l2 b i.
+Proof.
+  intros Hall Hnd Hperm i.
+  assert (Hall2 : Forall INR l2) by (eapply Permutation_Forall; eauto).
+  assert (Hnd2 : NoDup l2) by (eapply Permutation_NoDup; eauto).
+  rewrite !inplace_equals_out_of_place by assumption.
+  apply (runo_order_irrelevant B dflt X0 Y0 X1 Y1 stride bpp Hbpp Hstride); assumption.
+Qed.
+End InPlace.
+
 (* row striping:  for i := Min.Y + w; i < Max.Y; i += par  over w = 0..par-1 visits every row once *)
 Lemma stripes_partition (Y0 Y1 par y : Z) : 0 < par -> Y0 <= y < Y1 ->
   exists! w, 0 <= w < par /\ exists k, 0 <= k /\ y = Y0 + w + k * par.
